@@ -23,6 +23,12 @@ def jobs_for(ct, caps=(1, 2, 3, 4)):
                 jobs.append(l1.Job("cache.%s.N%d.%s" % (tag, cap, OPS[op].split("::")[1].replace("()", "ctor")), ct, "main", includes=INC, defines=defs,
                                    unwind=cap + 4, complete=True, timeout=600, function_label="detail::cache<T,%d>::%s (%s)" % (cap, OPS[op].split("::")[1], tag),
                                    where="include/SQuIDS/detail/Cache.h"))
+    # shared configuration under interference: local linearisation obligations of the two CAS loops (asserted at the successful CAS)
+    for cap in caps:
+        for op, nm in ((3, "pop"), (4, "push")):
+            jobs.append(l1.Job("cache.shared.interference.N%d.%s" % (cap, nm), ct, "main", includes=INC, defines=["CAP=%d" % cap, "OP=%d" % op, "INTERFERENCE"],
+                               unwind=cap + 8, complete=True, timeout=600, function_label="detail::cache<T,%d>::%s (shared, under interference)" % (cap, nm),
+                               where="include/SQuIDS/detail/Cache.h"))
     return jobs
 
 
@@ -34,6 +40,10 @@ def texts(rep):
     rep.assume("TRUSTED, not proved: a Treiber stack with a version-stamped head is linearisable, i.e. pop/push implement their atomic specifications under "
                "every interleaving (CBMC 6.11 refuses the intrusive `next` pointers in its concurrency mode); what is proved about the CAS loops is local: "
                "the whole (counter,index) pair is compared and a successful CAS installs counter+1")
+    rep.assume("interference at the CAS loops: before any compare-and-swap other threads may have completed operations -- the head then carries a different version "
+               "(each foreign successful CAS bumps it; 2^32 foreign operations inside one retry window excluded) and the links of all records not owned by this thread "
+               "are arbitrary; at most 2 such interference points and 2 spurious failures per operation are explored (loop then unwound completely); obligations: the "
+               "successor installed by pop / the link written by push are the ones valid in the state the successful CAS acts on")
     rep.assume("interference is modelled by ownership: a record pushed onto a list may be taken and overwritten by another thread at once (payload havocked)")
     rep.trust("CBMC 6.11 symbolic execution and SAT back end")
 
